@@ -201,7 +201,7 @@ def compare(op, refop, how: str, quirks: bool = False) -> tuple[str, str] | None
                 return "non_string_property_name", f"{how}: body property names {names!r} are not all strings"
             want_names = set(refop.body_schema.get("properties", {}))
             if quirks:
-                want_names |= {"on", "since"}
+                want_names |= {"on", "since", "1.5", "2e3", "null", "~"}
             if set(names) != want_names:
                 return "property_names_differ", f"{how}: body property names {sorted(map(str, names))} != {sorted(want_names)}"
             ex = media["properties"].get("since", {}).get("example") if quirks else "x"
